@@ -576,7 +576,7 @@ func replayOnce(sc *scratch, prop, variant, path string, extraEnv []string) (str
 		_ = json.Unmarshal(sb, &ws)
 	} else {
 		txt := string(b)
-		if err != nil && (strings.Contains(txt, "panic:") || strings.Contains(txt, "fatal error:") || strings.Contains(txt, "SIGSEGV")) {
+		if err != nil && (strings.Contains(txt, "panic:") || strings.Contains(txt, "fatal error:") || strings.Contains(txt, "SIGSEGV") || strings.Contains(txt, "VERIF-HANG")) {
 			return "PROCESS-CRASH", txt, nil
 		}
 		return "", txt, fmt.Errorf("replay produced no result file: %v\n%s", err, tail(txt, 40))
